@@ -78,6 +78,18 @@ func WalletToScriptHash(wallet) (r)
 func CheckVersion(from)
   pure
   ensures [C16] PrevVersion <= from && from < Version
+
+// NNS lookups read another contract and change nothing here
+func ResolveFSContractWithNNS(nns, contractName) (r)
+  ensures store == old(store) && notifs == old(notifs)
+  loop 0
+    invariant store == old(store) && notifs == old(notifs)
+
+func ResolveFSContract(name) (r)
+  ensures store == old(store) && notifs == old(notifs)
+
+func SubscribeForNewEpoch()
+  ensures store == old(store) && notifs == old(notifs)
 @*/
 
 /*@
